@@ -37,6 +37,8 @@ type Event struct {
 	FaultHit string   `json:"faulthit"` // end: description of the call the fault plan hit ("" if none)
 	Calls    int      `json:"calls"`    // end: number of visible calls of the operation
 	Info     string   `json:"info"`     // response of uninstall
+	Reqs     int      `json:"reqs"`     // end: HTTP requests of any kind the operation sent (storage, discovery, ... included)
+	ReqW     int      `json:"reqw"`     // ... of which not GET
 	Kept     []string `json:"kept"`     // end of uninstall: names listed in the response as kept by resource policy
 	// full abstract state after the event
 	State *State `json:"state"`
